@@ -230,7 +230,23 @@ func InitMetricsSegStore() {
 	go timeBasedMetaEntryWalFlush()
 }
 
+// serialises initOrgMetrics: two ingests that both find the org uninitialised must not both build its segments
+var initOrgMetricsLock sync.Mutex
+
 func initOrgMetrics(orgid int64) error {
+	initOrgMetricsLock.Lock()
+	defer initOrgMetricsLock.Unlock()
+
+	// Another ingest may have initialised the org while this one waited for the lock;
+	// initialising again would replace segments that already hold datapoints.
+	orgMetricsAndTagsLock.RLock()
+	holder, ok := OrgMetricsAndTags[orgid]
+	alreadyInitialised := ok && len(holder.MetricSegments) > 0
+	orgMetricsAndTagsLock.RUnlock()
+	if alreadyInitialised {
+		return nil
+	}
+
 	orgMetricsAndTagsLock.Lock()
 	if _, ok := OrgMetricsAndTags[orgid]; !ok {
 		OrgMetricsAndTags[orgid] = &MetricsAndTagsHolder{
